@@ -24,6 +24,9 @@ NAMES = [("colA", "colB"), ("resp-hand", "stim_type2"), ("Col_a", "col-B9"), ("a
 A_TEXT = {"cat": "Square", "val": "Age/33", "hed": "Circle"}
 
 
+_UNK = ["zzz"]          # the unknown category key of this build (sometimes a real key with a blank added: still unknown)
+
+
 def _cell(col, state, akind=None):
     if col == "host_cat":
         return {"ok": "h1", "na": "n/a"}[state]
@@ -31,7 +34,7 @@ def _cell(col, state, akind=None):
         return {"ok": "abc", "na": "n/a"}[state]
     if col == "A":
         if akind == "cat":
-            return {"ok": "a1", "na": "n/a", "unk": "zzz"}[state]
+            return {"ok": "a1", "na": "n/a", "unk": _UNK[0]}[state]
         if akind == "val":
             return {"ok": "33", "na": "n/a"}[state]
         return {"ok": "Circle", "na": "n/a", "empty": ""}[state]
@@ -72,6 +75,7 @@ def has_empty_group(case):
 
 def build(case, seed):
     rng = random.Random(seed)
+    _UNK[0] = ["zzz", "a1 ", " a1", "A1"][seed % 4]
     style = rng.randrange(4)
     names = NAMES[seed % len(NAMES)]
     na, nb = names
